@@ -2481,13 +2481,18 @@ def convert_ops_to_lut(op: Operation, arch, nng) -> Operation:
         name = "exp"
     elif op.type == Op.Log:
         def log(value):
-            if (value == 0):
+            # codes at or below the input zero point dequantise to values <= 0, where log is not defined: they all
+            # get the stand-in for log(0), which saturates to the lowest output code
+            if value <= 0:
                 value = sys.float_info.min
             return math.log(value)
         func = log
         name = "log"
     elif op.type == Op.Sqrt:
-        func = math.sqrt
+        def sqrt(value):
+            # codes below the input zero point dequantise to negative values, where sqrt is not defined
+            return math.sqrt(max(value, 0.0))
+        func = sqrt
         name = "sqrt"
     elif op.type == Op.Gelu:
         def gelu(x):
